@@ -19,8 +19,12 @@ import (
 // return unless the controller acts. That turns "admitted at once" and "never
 // deadlocks" into exact verdicts, without a timeout.
 type Sched struct {
-	water int64 // goroutines with id <= water existed before the case
-	ctl   int64
+	// goroutines that existed when the case started (test runner, goroutines leaked
+	// by an earlier failing case) are not part of it. Goroutine ids are handed out
+	// in per-P batches, so they are unique but NOT monotonic in time: the baseline
+	// is therefore the explicit id set of a dump, not a watermark.
+	base map[int64]struct{}
+	ctl  int64
 	ops   []*Op
 	buf   []byte
 	// Snapshots counts goroutine dumps taken (reported in evidence).
@@ -66,11 +70,11 @@ func parseGID(b []byte) int64 {
 
 // NewSched must be called by the controller goroutine at the start of a case.
 func NewSched() *Sched {
-	s := &Sched{ctl: curGID()}
-	// goroutine ids grow monotonically: a fresh goroutine's id is a watermark.
-	ch := make(chan int64)
-	go func() { ch <- curGID() }()
-	s.water = <-ch
+	s := &Sched{ctl: curGID(), base: map[int64]struct{}{}}
+	for _, g := range s.Dump() {
+		s.base[g.ID] = struct{}{}
+	}
+	s.Snapshots = 0
 	return s
 }
 
@@ -196,7 +200,7 @@ func (s *Sched) Quiesce() ([]GState, error) {
 		gs := s.Dump()
 		var parked, busy []GState
 		for _, g := range gs {
-			if g.ID <= s.water || g.ID == s.ctl {
+			if _, old := s.base[g.ID]; old || g.ID == s.ctl {
 				continue
 			}
 			if IsParked(g.State) {
